@@ -555,6 +555,12 @@ class Analyzer(Interp):
             if k == "assign":
                 p = s["p"]
                 v = self.rvalue(st, frame, s["r"], p["ty"])
+                if v[0] == "ptr" and p["ty"].startswith("&") and seq_kind(p["ty"]) in ("slice", "str", "array"):
+                    # a reference to a slice / str is an immutable view of a fixed extent: keep the sequence facts
+                    # (length, flags, identity) in the reference itself so that they survive joins
+                    dv = self.deref(st, v)
+                    if dv[0] == "seq":
+                        v = dv
                 key, left = self.resolve(st, frame, p)
                 if left:
                     continue        # store into an element: lengths unchanged
